@@ -36,6 +36,15 @@ def rule06 (s pz : Nat) : Bool :=
 def rule11 (s pz : Nat) : Bool :=
   pz == (if s % 11 = 0 then 0 else if s % 11 = 1 then 9 else 11 - s % 11)
 
+/-- Method 68: ten-digit numbers (`d1 ≠ 0`) need `d4 = 9` and are checked like 00 over positions 4–9;
+    nine-digit and shorter numbers: 400000000–499999999 are not checked; otherwise like 00 over
+    positions 2–9, or — second variant — the same with positions 3 and 4 left out. -/
+def de68 (d1 d2 d3 d4 d5 d6 d7 d8 d9 d10 : Nat) : Bool :=
+  if d1 ≠ 0 then decide (d4 = 9) && rule10 (dotQ [2, 1, 2, 1, 2, 1] [d9, d8, d7, d6, d5, d4]) d10
+  else if d2 = 4 then true
+  else rule10 (dotQ [2, 1, 2, 1, 2, 1, 2, 1] [d9, d8, d7, d6, d5, d4, d3, d2]) d10 ||
+       rule10 (dotQ [2, 1, 2, 1, 2, 1] [d9, d8, d7, d6, d5, d2]) d10
+
 end SV.Spec
 
 namespace SV.Spec
@@ -71,5 +80,29 @@ def rule21 (s pz : Nat) : Bool := pz == (10 - crossReduce s s) % 10
 
 /-- Method 76: the remainder itself is the check digit; remainder 10 cannot be used. -/
 def rule76 (s pz : Nat) : Bool := s % 11 ≠ 10 && pz == s % 11
+
+end SV.Spec
+
+namespace SV.Spec
+
+/-- `Σ ((dᵢ·wᵢ + wᵢ) mod 11)` (method 24). -/
+def dot24 : List Nat → List Nat → Nat
+  | w :: ws, d :: ds => (d * w + w) % 11 + dot24 ws ds
+  | _, _ => 0
+
+def dropZeros : List Nat → List Nat
+  | [] => []
+  | d :: t => if d = 0 then dropZeros t else d :: t
+
+/-- Method 24: digits 1–9 left to right; a leading 3, 4, 5 or 6 counts as 0, a leading 9 makes the
+    first three digits count as 0; weights 1, 2, 3, 1, 2, 3, … start at the first significant digit;
+    each product is increased by its weight and reduced modulo 11; the check digit (position 10)
+    is the last digit of the sum. -/
+def de24 (ds : List Nat) (pz : Nat) : Bool :=
+  let body := match ds with
+    | d1 :: rest => if d1 = 3 ∨ d1 = 4 ∨ d1 = 5 ∨ d1 = 6 then rest
+                    else if d1 = 9 then rest.drop 2 else d1 :: rest
+    | [] => []
+  pz == dot24 [1, 2, 3, 1, 2, 3, 1, 2, 3] (dropZeros body) % 10
 
 end SV.Spec
